@@ -75,12 +75,14 @@ def compose_polynomial_array(
                 key = tuple(key) + (0,) * (length - len(key))
                 if key not in collection:
                     collection[key] = numpy.zeros(len(oarrays), dtype=dtype)
-                collection[key][idx] = value
+                # cast like numpy.ndarray.astype; item assignment of scalars
+                # refuses values outside the range of the target dtype.
+                collection[key][idx] = numpy.asarray(value).astype(dtype)
         else:
             key = (0,) * length
             if key not in collection:
                 collection[key] = numpy.zeros(len(oarrays), dtype=dtype)
-            collection[key][idx] = array
+            collection[key][idx] = numpy.asarray(array).astype(dtype)
 
     exponents = sorted(collection)
     coefficients = numpy.array([collection[key] for key in exponents])
